@@ -14,8 +14,10 @@ import (
 	"math/big"
 	"os"
 	"path/filepath"
+	"runtime"
 	"strconv"
 	"strings"
+	"sync"
 	"time"
 	"unicode/utf8"
 
@@ -41,6 +43,37 @@ func closeOut() {
 	if outW != nil {
 		outW.Flush()
 	}
+}
+
+// settle lets the collector and the finalizer goroutine run: two collections and a short pause.  Called before
+// results handed out earlier are inspected again, and by sources between two pieces of a delivery - a library that
+// ties the life of a buffer to an object the caller no longer sees shows up then.
+func settle() {
+	runtime.GC()
+	runtime.Gosched()
+	runtime.GC()
+	time.Sleep(time.Millisecond)
+}
+
+// gcStorm keeps the collector busy until stop is called (memory pressure from the rest of the process).
+func gcStorm() (stop func()) {
+	done := make(chan struct{})
+	var wg sync.WaitGroup
+	wg.Add(1)
+	go func() {
+		defer wg.Done()
+		junk := make([][]byte, 64)
+		for i := 0; ; i++ {
+			select {
+			case <-done:
+				return
+			default:
+			}
+			junk[i%64] = make([]byte, 1<<12)
+			runtime.GC()
+		}
+	}()
+	return func() { close(done); wg.Wait() }
 }
 
 // narrow is the value a Go int on this platform holds for x (identity on 64-bit platforms): what is recorded is what
